@@ -23,7 +23,7 @@ RULE = (
     "Case = message sizes (1 .. 8 MiB, around 1024, 64 KiB, 1 MiB boundaries), peer receive-buffer capacity (1 byte .. "
     "unlimited), a cyclic plan of how many bytes each socket.send accepts, reader pacing (immediate, delayed start, small "
     "reads with pauses longer than the select timeout), API (Connection.send_data | HsmsProtocol.send_message), connect mode "
-    "and thread schedule. Oracle: every call returns within the virtual horizon; the peer's stream equals the concatenation "
+    "and thread schedule; in a quarter of the cases without a peer close the application calls disable() right after its sends were reported successful (peer has not read them yet). Oracle: every call returns within the virtual horizon; the peer's stream equals the concatenation "
     "of the buffers reported as sent (first mismatch offset reported). Non-trivial = at least one socket.send accepted fewer "
     "bytes than offered or raised EWOULDBLOCK (observed by the socket shim); distinct by case hash."
 )
@@ -101,7 +101,14 @@ def case_strategy(draw, max_size):
     sched = draw(
         st.one_of(st.just({"seed": 0}), st.builds(lambda s, p: {"seed": s, "switch": p}, st.integers(1, 2**31), st.sampled_from([0.05, 0.5])))
     )
-    return {"sizes": sizes, "capacity": capacity, "plan": plan, "reader": reader, "via": via, "active": active, "sched": sched, "packet": packet}
+    case = {"sizes": sizes, "capacity": capacity, "plan": plan, "reader": reader, "via": via, "active": active, "sched": sched, "packet": packet}
+    if reader["close_after"] is None and draw(st.integers(0, 3)) == 0:
+        # the application closes the connection (disable()) right after its sends were reported successful, while the peer has
+        # not read them yet: an orderly close still delivers every accepted byte before the end of the stream
+        case["then"] = "disable"
+        if draw(st.booleans()):
+            reader["start_delay"] = 2.0
+    return case
 
 
 def run_case(case, observe=None):
@@ -222,6 +229,14 @@ def run_case(case, observe=None):
             return Failure(f"send-does-not-return:{case['via']}", case, f"{st_} {sim.blocked_report()}", "send returns")
         if "error" in box:
             return Failure(f"send-raises:{case['via']}", case, repr(box["error"]), "True/False")
+        unread_at_close = None
+        if case.get("then") == "disable" and all(results):
+            unread_at_close = len(peer.rx)
+            std, _ = sim.run(rig.p.disable, horizon=300, name="disable")
+            if std != "done":
+                return Failure("disable-after-send-does-not-return", case, f"{std} {sim.blocked_report()[:4]}", "disable() returns")
+            if observe is not None:
+                observe["unread_at_close"] = unread_at_close
         # let the reader drain everything that is in flight
         for _ in range(200):
             if not peer.rx:
@@ -257,6 +272,11 @@ def run_case(case, observe=None):
             pre = b"".join(raw for (m, raw) in bufs[:k])
             if bytes(got[: len(pre)]) != pre:
                 return Failure(f"stream-mismatch-before-failed-send:{case['via']}", case, _diff(got, pre), "prefix intact")
+            return None
+        if unread_at_close is not None:
+            # after the local close only the prefix is compared: the session layer may append its Separate.req
+            if bytes(got[: len(expected)]) != expected:
+                return Failure(f"stream-mismatch:{case['via']}:{_kind(got[: len(expected)], expected)}:after-local-close", case, _diff(got, expected), f"{len(expected)} bytes identical, then end of stream")
             return None
         if bytes(got) != expected:
             return Failure(f"stream-mismatch:{case['via']}:{_kind(got, expected)}", case, _diff(got, expected), f"{len(expected)} bytes identical")
@@ -302,6 +322,8 @@ def run_task(name, kw, ctx):
             + (["spurious-ewouldblock"] if 0 in case["plan"] else [])
             + (["packetised"] if case.get("packet") and case["via"] == "send_message" and max(case["sizes"]) > case["packet"] else [])
             + (["block-exact-multiple-of-packet"] if case.get("packet") and case["via"] == "send_message" and any(_block_len(n) % case["packet"] == 0 for n in case["sizes"]) else [])
+            + (["local-close-after-send"] if case.get("then") == "disable" else [])
+            + (["local-close-with-unread-bytes-at-the-peer"] if obs.get("unread_at_close") else [])
             + (["random-schedule"] if case["sched"].get("seed") else []),
         )
         return f
